@@ -557,7 +557,7 @@ struct array_iterator  // NOLINT(fuchsia-multiple-inheritance) for facades
 	#endif
 
 	BOOST_MULTI_HD constexpr auto operator+ (difference_type n) const -> array_iterator {array_iterator ret{*this}; ret += n; return ret;}
-	BOOST_MULTI_HD constexpr auto operator[](difference_type n) const -> subarray<element, D-1, element_ptr> {return *((*this) + n);}
+	BOOST_MULTI_HD constexpr auto operator[](difference_type n) const -> reference {return *((*this) + n);}  // same (const-correct) type as operator*
 
 	template<bool OtherIsConst, 
 		std::enable_if_t<(IsConst != OtherIsConst), int> =0>  // NOLINT(modernize-use-constraints)  TODO(correaa) for C++20
@@ -1089,8 +1089,9 @@ struct const_subarray : array_types<T, D, ElementPtr, Layout> {
  public:
 	const_subarray(const_subarray&&) noexcept = default;  // lints(readability-redundant-access-specifiers)
 
-	constexpr auto       elements()      & ->       elements_range { return elements_aux_(); }
-	constexpr auto       elements()     && ->       elements_range { return elements_aux_(); }
+	// a const_subarray is read-only whatever its value category (the mutable overloads live in subarray)
+	constexpr auto       elements()      & -> const_elements_range { return const_elements_range(this->base(), this->layout()); }
+	constexpr auto       elements()     && -> const_elements_range { return const_elements_range(this->base(), this->layout()); }
 	constexpr auto       elements() const&                         { return const_elements_range(this->base(), this->layout()); }
 	constexpr auto const_elements() const  -> const_elements_range { return elements_aux_(); }
 
@@ -1995,6 +1996,14 @@ class subarray : public const_subarray<T, D, ElementPtr, Layout> {
 	using const_subarray<T, D, ElementPtr, Layout>::home;
 	constexpr auto home()     && { return this->home_aux_(); }
 	constexpr auto home()      & { return this->home_aux_(); }
+
+	// mutable element ranges are a property of (mutable) subarrays; const_subarray only offers read-only ones
+	template<class Dummy = void, std::enable_if_t<sizeof(Dummy*) && (D != 0), int> =0>  // NOLINT(modernize-use-constraints)
+	constexpr auto elements()      & { using base_t = std::conditional_t<sizeof(Dummy*) != 0, const_subarray<T, D, ElementPtr, Layout>, void>; return typename base_t::elements_range(this->base_, this->layout()); }
+	template<class Dummy = void, std::enable_if_t<sizeof(Dummy*) && (D != 0), int> =0>  // NOLINT(modernize-use-constraints)
+	constexpr auto elements()     && { using base_t = std::conditional_t<sizeof(Dummy*) != 0, const_subarray<T, D, ElementPtr, Layout>, void>; return typename base_t::elements_range(this->base_, this->layout()); }
+	template<class Dummy = void, std::enable_if_t<sizeof(Dummy*) && (D != 0), int> =0>  // NOLINT(modernize-use-constraints)
+	constexpr auto elements() const& { using base_t = std::conditional_t<sizeof(Dummy*) != 0, const_subarray<T, D, ElementPtr, Layout>, void>; return static_cast<base_t const&>(*this).elements(); }
 
 	template<class It> constexpr auto assign(It first) & -> It { adl_copy_n(first, this->size(), begin()); std::advance(first, this->size()); return first; }
 	template<class It> constexpr auto assign(It first)&& -> It { return assign(first);}
@@ -2969,8 +2978,9 @@ struct const_subarray<T, 1, ElementPtr, Layout>  // NOLINT(fuchsia-multiple-inhe
 	constexpr auto elements_aux_() const {return elements_range{this->base_, this->layout()};}
 
  public:
-	constexpr auto  elements()      & ->       elements_range {return elements_aux_();}
-	constexpr auto  elements()     && ->       elements_range {return elements_aux_();}
+	// a const_subarray is read-only whatever its value category (the mutable overloads live in subarray)
+	constexpr auto  elements()      & -> const_elements_range {return const_elements_range{this->base(), this->layout()};}
+	constexpr auto  elements()     && -> const_elements_range {return const_elements_range{this->base(), this->layout()};}
 	constexpr auto  elements() const& -> const_elements_range {return const_elements_range{this->base(), this->layout()};}  // TODO(correaa) simplify
 
 	constexpr auto celements() const  -> const_elements_range {return elements_aux_();}
